@@ -249,7 +249,7 @@ void Avtp_Vss_Pad(Avtp_Vss_t* pdu, uint16_t vss_length);
 
 /* Getter and Setter Functions*/
 Avtp_AcfMsgType_t Avtp_Vss_GetAcfMsgType(Avtp_Vss_t* pdu);
-uint8_t Avtp_Vss_GetAcfMsgLength(Avtp_Vss_t* pdu);
+uint16_t Avtp_Vss_GetAcfMsgLength(Avtp_Vss_t* pdu);
 uint8_t Avtp_Vss_GetPad(Avtp_Vss_t* pdu);
 uint8_t Avtp_Vss_GetMtv(Avtp_Vss_t* pdu);
 Vss_AddrMode_t Avtp_Vss_GetAddrMode(Avtp_Vss_t* pdu);
@@ -264,7 +264,7 @@ void Avtp_Vss_DeserializeStringArray(VssDataStringArray_t* vss_data_string_array
                                      VssDataString_t* strings[],
                                      uint16_t num_strings);
 void Avtp_Vss_SetAcfMsgType(Avtp_Vss_t* pdu, Avtp_AcfMsgType_t val);
-void Avtp_Vss_SetAcfMsgLength(Avtp_Vss_t* pdu, uint8_t val);
+void Avtp_Vss_SetAcfMsgLength(Avtp_Vss_t* pdu, uint16_t val);
 void Avtp_Vss_SetPad(Avtp_Vss_t* pdu, uint8_t val);
 void Avtp_Vss_SetMtv(Avtp_Vss_t* pdu, uint8_t val);
 void Avtp_Vss_SetAddrMode(Avtp_Vss_t* pdu, Vss_AddrMode_t val);
